@@ -308,3 +308,132 @@ def check(F, R, Gm):
     d_scope(F, R)
     w_order(F, R)
     s_names(F, R, Gm)
+    t_sets(F, R)
+
+
+# ---- T-SETS -------------------------------------------------------------------------------------------
+# union / intersection / difference touch their elements only through the equality helper, so their behaviour on all
+# lists up to a length is determined by the equality pattern of the elements: the three `call` bodies are evaluated by the
+# table interpreter on every pair of lists over a 3-letter alphabet up to length 3 (1600 pairs) with the argument
+# evaluation replaced by the lists, and compared with set semantics (the LaTeX rendering of the same builtins is
+# \cup, \cap, \setminus): membership for all three, no repetition and first-occurrence order for union, a sub-sequence
+# of the first operand for the other two.
+
+def t_sets(F, R):
+    import itertools
+    from interp import Interp, Var, ListV, Leaf, is_unknown
+    AF = "runtime_builtin::functions::array_functions::"
+    fns = {"union": "<%sArrayUnion as runtime_builtin::functions::function_traits::RoocFunction>::call" % AF,
+           "intersection": "<%sArrayIntersection as runtime_builtin::functions::function_traits::RoocFunction>::call" % AF,
+           "difference": "<%sArrayDifference as runtime_builtin::functions::function_traits::RoocFunction>::call" % AF}
+    I = Interp(F, max_depth=60)
+    I.models["parser::il::il_exp::PreExp::as_iterator"] = lambda I_, a: Var("std::result::Result::Ok", [a[0]])
+    I.models["primitives::iterable::IterableKind::to_primitives"] = lambda I_, a: ListV(list(a[0].items))
+    I.models["primitives::iterable::IterableKind::flatten"] = lambda I_, a: a[0]
+    I.models[AF + "primitive_value_eq"] = lambda I_, a: a[0] == a[1]
+    lists = [()]
+    for n in (1, 2, 3):
+        lists += list(itertools.product("abc", repeat=n))
+    ref_member = {"union": lambda x, A, B: x in A or x in B, "intersection": lambda x, A, B: x in A and x in B, "difference": lambda x, A, B: x in A and x not in B}
+    for name, path in fns.items():
+        f = F.fn(path)
+        if not R.ob("T-SETS", name + ":anchor", f is not None and "body" in f, "packages/rooc/src/runtime_builtin/functions/array_functions.rs", "builtin `%s` found" % name):
+            continue
+        R.fn(path)
+        bad = None
+        n = 0
+        for A in lists:
+            for B in lists:
+                n += 1
+                args = ListV([ListV(list(A)), ListV(list(B))])
+                r = I.call_fn(path, [Var(AF + "Array" + name.capitalize()), args, Var("CTX"), Var("FCTX")])
+                out = None
+                if isinstance(r, Var) and r.path.endswith("Result::Ok") and r.args:
+                    v = r.args[0]
+                    while isinstance(v, Var) and v.args:
+                        v = v.args[0]
+                    if isinstance(v, ListV):
+                        out = list(v.items)
+                if out is None:
+                    bad = "not evaluable on (%s, %s): %r" % (list(A), list(B), r)
+                    break
+                for x in "abc":
+                    if (x in out) != ref_member[name](x, A, B):
+                        bad = "%s(%s, %s) = %s: membership of %s is wrong" % (name, list(A), list(B), out, x)
+                if name == "union":
+                    seen = []
+                    for x in list(A) + list(B):
+                        if x not in seen:
+                            seen.append(x)
+                    if out != seen:
+                        bad = "union(%s, %s) = %s, expected each element once in order of first occurrence %s" % (list(A), list(B), out, seen)
+                else:
+                    it = iter(A)
+                    if not all(any(y == x for y in it) for x in out):
+                        bad = "%s(%s, %s) = %s is not a sub-sequence of the first operand" % (name, list(A), list(B), out)
+                if bad:
+                    break
+            if bad:
+                break
+        R.ob("T-SETS", name + ":set-semantics", bad is None, F.loc(f), "evaluated on %d list pairs (all equality patterns up to length 3): %s" % (n, bad or "membership, repetition and order as for a set %s" % name))
+    g = F.fn(AF + "contains_value")
+    if g is not None:
+        R.fn(AF + "contains_value")
+        t = sexp(g["body"])
+        R.ob("T-SETS", "contains_value", ".any(" in t and "primitive_value_eq(p, needle)" in t, F.loc(g), "membership is `any element equal by value`: %s" % t[:120])
+
+
+def d_scope_use(F, R, rule="D-SCOPE", only=None):
+    """in a function that opens one frame per element of an iteration list (for .. in LIST { .. add_scope() .. }) and pops
+    them in a loop over the same list, every use of the context together with a part of `self` other than LIST happens
+    between the two loops: a check moved after the pops (or before the pushes) sees the iteration variables unbound"""
+    n = 0
+    for f in F.fn_list:
+        if "body" not in f or (only and not only(f)):
+            continue
+        items = top_level(f["body"])
+        open_i = close_i = None
+        lst = ctx = None
+        for i, st in enumerate(items):
+            e = strip(st.get("e") or {}) if st.get("k") in ("Expr", "Semi") else {}
+            if e.get("k") != "For":
+                continue
+            adds = [x for x in walk(e["body"]) if x.get("k") == "MCall" and x["name"] == "add_scope"]
+            pops = [x for x in walk(e["body"]) if x.get("k") == "MCall" and x["name"] == "pop_scope"]
+            if adds and open_i is None:
+                open_i, lst, ctx = i, sexp(e["iter"]).replace("&", ""), sexp(strip(adds[0]["recv"]))
+            elif pops and open_i is not None and sexp(e["iter"]).replace("&", "") == lst:
+                close_i = i
+        if open_i is None or close_i is None:
+            continue
+        n += 1
+        R.fn(f["path"])
+        outside = []
+        for i, st in enumerate(items):
+            if open_i <= i <= close_i:
+                continue
+            for x in walk(st):
+                if x.get("k") in ("MCall", "Call"):
+                    ops = ([x["recv"]] if x.get("k") == "MCall" else []) + list(x.get("args", []))
+                    uses_ctx = any(strip(o).get("k") == "Path" and strip(o).get("res") == "local" and strip(o).get("name") == ctx for o in ops)
+                    if not uses_ctx or (x.get("k") == "MCall" and x["name"] in ("pop_scope", "add_scope")):
+                        continue
+                    t = sexp(x)
+                    if "self." in t and lst.replace("self.", "") not in t.replace(ctx, ""):
+                        outside.append(t[:90])
+        # values derived from self by pattern bindings (`if let Some(name_exp) = &self.name_exp`) count as parts of self
+        for i, st in enumerate(items):
+            if open_i <= i <= close_i:
+                continue
+            binds_self = [x for x in walk(st) if x.get("k") in ("If", "Match", "Let") and "self." in sexp(x.get("cond") or x.get("scrut") or x.get("init") or {}) ]
+            if binds_self:
+                for x in walk(st):
+                    if x.get("k") in ("MCall", "Call"):
+                        ops = ([x["recv"]] if x.get("k") == "MCall" else []) + list(x.get("args", []))
+                        if any(strip(o).get("k") == "Path" and strip(o).get("name") == ctx for o in ops) and not (x.get("k") == "MCall" and x["name"] in ("pop_scope", "add_scope")):
+                            t = sexp(x)[:90]
+                            if t not in outside:
+                                outside.append(t)
+        R.ob(rule, f["path"] + ":context-uses-inside-frames", not outside, F.loc(f), "uses of `%s` with parts of self outside the frames of `%s`: %s" % (ctx, lst, outside or "none"))
+    R.count(rule + ".framed-functions", n)
+    return n
